@@ -29,6 +29,7 @@ FLOORS = {
 }
 FLOORS['quick']['declared:rowcol'] = 30
 FLOORS['quick']['failed_builds'] = 50
+FLOORS['quick']['graph_exports'] = 20
 ASSUMPTIONS = [
     'computed references (OFFSET / INDIRECT) are outside the statement and are not generated',
     'address strings are parsed by the harness itself (sheet!A1[:B2]); unbounded forms are matched by name',
@@ -123,7 +124,7 @@ def quiescent(ctx, comp, spec, meta):
     g = comp.dep_graph
     for x, node in list(comp.cell_map.items()):
         formula = getattr(node, 'formula', None)
-        if not formula or x == spec.get('poison'):
+        if not formula or x in (spec.get('poison_cells') or ()):
             continue
         preds = ({p.address.address for p in g.predecessors(node)} if node in g else set())
         for need in formula.needed_addresses:
@@ -160,7 +161,9 @@ def influence(ctx, comp, spec, meta, rng, base):
     g = comp.dep_graph
     for a in rng.sample(inputs, min(2, len(inputs))):
         old = wb.spec_cells(spec).get(a)
-        new = rng.choice([v for v in (17, 'zz', True, None, -3.5) if wb.norm(v) != wb.norm(old)])
+        # (a blank would change the used area of the sheet that unbounded references are clipped to)
+        pool = (17, 'zz', True, -3.5) if a.startswith(wbgen.SD + '!') else (17, 'zz', True, None, -3.5)
+        new = rng.choice([v for v in pool if wb.norm(v) != wb.norm(old)])
         other = wb.fresh_values(wb.with_inputs(spec, {a: new}), list(meta['formulas']))
         ctx.count('influence_perturbations')
         node_a = comp.cell_map.get(a)
@@ -193,9 +196,20 @@ def one_workbook(ctx, spec, meta, order, config='mem', rng=None):
         # cells built so far must still get their edges when the model is used afterwards
         o = wb.outcome(comp.evaluate, poison)
         ctx.count('failed_builds' if o[0] == 'x' else 'poison_did_not_fail')
-    for a in order:
+    for k, a in enumerate(order):
         base[a] = wb.outcome(comp.evaluate, a)
+        if spec.get('export_at') == k:
+            # exporting the graph must not disturb the live graph
+            o = wb.outcome(comp.export_to_gexf, f'{ctx.tmpdir}/g.gexf')
+            ctx.count('graph_exports' if o[0] == 'v' else 'graph_export_raised')
     STATE['comp'] = None
+    foreign = [n for n in comp.dep_graph.nodes if not hasattr(n, 'address')]
+    if foreign:
+        ctx.violation('graph-node-is-not-a-cell', f'after evaluating (and exporting) the dependency graph holds '
+                      f'{len(foreign)} nodes that are not cells, e.g. {foreign[0]!r}',
+                      {'spec': spec, 'meta': meta, 'order': order, 'config': config})
+        ctx.count('workbooks')
+        return
     found = list(STATE['found']) + check_read_edges(ctx, comp)
     if not any(o[0] == 'x' for o in base.values()):
         found += quiescent(ctx, comp, spec, meta)
@@ -234,9 +248,20 @@ def run(ctx):
         if i % 3 == 0 and len(fcells) >= 2:
             p1, p2 = rng.sample(fcells, 2)
             spec = dict(spec, sheets=[[s, dict(c)] for s, c in spec['sheets']])
-            spec['sheets'][0][1]['A20'] = f'={p1.rsplit("!", 1)[1]}+{p2.rsplit("!", 1)[1]}+[1]Other!A1'
+            c1, c2 = p1.rsplit('!', 1)[1], p2.rsplit('!', 1)[1]
+            bad = '[1]Other!A1'
+            variant = (i // 3) % 4
+            if variant == 3:
+                # the unbuildable reference sits one level down, in a precedent that comes first
+                spec['sheets'][0][1]['A21'] = f'={bad}+1'
+                bad = 'A21'
+                variant = 1
+            spec['sheets'][0][1]['A20'] = (f'={c1}+{c2}+{bad}', f'={bad}+{c1}+{c2}', f'={c1}+{bad}+{c2}')[variant]
             spec['poison'] = f'{first_sheet}!A20'
-            order = [a for a in order if a != spec['poison']]
+            spec['poison_cells'] = [f'{first_sheet}!A20', f'{first_sheet}!A21']
+            order = [a for a in order if a not in spec['poison_cells']]
+        if i % 7 == 0:
+            spec = dict(spec, export_at=len(order) // 2)
         one_workbook(ctx, spec, meta, order, config='xlsx' if i % 5 == 0 else 'mem', rng=rng)
 
 
